@@ -854,8 +854,11 @@ pub mod anf_renamer {
     /// Locals are named `hint/index` up to here and `hint__index` in the Go text. A top-level
     /// function keeps the name it was written with, and that may be `f__3`: such a local gets
     /// more underscores until it is nobody's name.
-    pub fn rename(file: anf::File) -> anf::File {
-        let taken: BTreeSet<String> = file.toplevels.iter().map(|f| f.name.clone()).collect();
+    ///
+    /// `type_names`: the names of the program's types, which are Go names at package level too.
+    pub fn rename(file: anf::File, type_names: impl Iterator<Item = String>) -> anf::File {
+        let mut taken: BTreeSet<String> = file.toplevels.iter().map(|f| f.name.clone()).collect();
+        taken.extend(type_names);
         anf::File {
             toplevels: file
                 .toplevels
